@@ -547,7 +547,8 @@ func ruleV7(c *Ctx) {
 				if op < 0 || !strings.HasSuffix(cl, ")") || !(strings.HasSuffix(cl[:op], ".Extend") || strings.HasSuffix(cl[:op], ".Set")) {
 					continue
 				}
-				for _, a := range strings.Split(cl[op+1:len(cl)-1], ",") {
+				as := strings.Split(cl[op+1:len(cl)-1], ",")
+				for _, a := range as[len(as)-1:] { // the end argument only
 					if m := savedCellArg.FindStringSubmatch(strings.TrimSpace(a)); m != nil && m[1] != "Offs" && m[1] != "Len" {
 						pos := t.AtPos
 						if !pos.IsValid() {
@@ -604,7 +605,9 @@ func ruleV1(c *Ctx) {
 	ruleF4(t)
 	var keys []string
 	for _, o := range t.obls {
-		if o.Rule == "V1" || strings.Contains(o.Key, "msg.offs") {
+		// V1 is read off F1's path table: a path F1 could not decide (unknown predicate, unexpected row) leaves the
+		// views of that path undecided too, and undecided fails
+		if o.Rule == "V1" || strings.Contains(o.Key, "msg.offs") || (o.Status == "fail" && o.Rule == "F1") {
 			o.Key = "V1:" + strings.TrimPrefix(strings.TrimPrefix(o.Key, "V1:"), "F4:")
 			o.Rule = "V1"
 			c.obls = append(c.obls, o)
@@ -639,6 +642,7 @@ func init() {
 			{"V6", "every completion path of ParseAllContactValues / ParseAllPAIValues (verdict 0 or more-values) passes the restart-or-extend of LastHVal before the next value / the return (SSA must-pass), so Hdr.Val of the header always covers the value just completed", ruleV6},
 			{"V5", "trimming survives a suspension: in every state of the 5 extracted automata that a more-bytes exit persists together with an offset already advanced by the whitespace skipper, no transition taken on a whitespace byte or at buffer end closes a span at the bare scan index (Extend(i) / Set(a,i) / *end=i) — after a resume the index is past the trailing blanks and they would become part of the value", ruleV5},
 			{"V7", "saved-end pairing in the extracted automata: a state that closes a span at an end saved in the object before trailing blanks (X.Extend(obj.cell) / X.Set(a, obj.cell)) reads the cell that every transition entering the state stored, not a sibling saved end", ruleV7},
+			{"V8", "the extents of generic header names and values (Hdr.Name, Hdr.Val: where they are opened, extended and closed, per state and byte class) are those of the reviewed ParseHdrLine automaton (ref/ParseHdrLine.txt, shared with C07-T8): a new way of finding the value end shows up as rows that are not in the table", func(c *Ctx) { fsmRefRule(c, "V8", "ParseHdrLine") }},
 			{"V3", "nesting by sibling agreement on the completing exits of the extracted automata: an exit that extends Params (or closes the URI) extends the whole value V to the same end; the tag is the parameter value span; the CSeq number starts V and the method ends it", ruleV3},
 		},
 		Assumptions: []string{"field end arguments are positions <= len(buf) (C04-P2)"},
